@@ -9,6 +9,7 @@
 EXTENDS Integers, Sequences, TLC
 
 CONSTANTS MaxMsg,   \* defs.InputLogMaxMessageBytes in the run that produced the trace
+          MaxRec,   \* defs.InputLogMaxRecordBytes: header fields + kept message never exceed it
           MinLen    \* minimal supported line length (32)
 
 FacilityNames == <<"kern", "user", "mail", "daemon", "auth", "syslog", "lpr", "news", "uucp", "cron", "authpriv", "ftp",
@@ -57,7 +58,11 @@ Valid(s) == ValidFrom(s, 1)
 RECURSIVE BoundaryAtOrBefore(_, _)
 BoundaryAtOrBefore(s, n) == IF n = 0 THEN 0
                             ELSE IF n = Len(s) \/ ~Cont(s[n + 1]) THEN n ELSE BoundaryAtOrBefore(s, n - 1)
-CutMessage(m) == IF Len(m) <= MaxMsg THEN m ELSE SubSeq(m, 1, BoundaryAtOrBefore(m, MaxMsg))
+\* the header (everything up to and including the seventh space) is kept as it is; the message is cut so that both
+\* fit in the maximum record length (the listener's limit is soft); a header that alone exceeds it is refused
+HeaderLen(s) == Spaces(s, 1, 7)[7]
+MsgLimit(s) == IF HeaderLen(s) + MaxMsg > MaxRec THEN MaxRec - HeaderLen(s) ELSE MaxMsg
+CutMessageTo(m, lim) == IF Len(m) <= lim THEN m ELSE SubSeq(m, 1, BoundaryAtOrBefore(m, lim))
 
 HasNewline(m) == \E i \in 1..Len(m) : m[i] = 10
 
@@ -68,17 +73,19 @@ Check(e) ==
   \* every message is counted exactly once, with its byte length, as passed or dropped
   /\ (e.res = "record" => e.dPass = 1 /\ e.dPassB = Len(s) /\ e.dDrop = 0 /\ e.dDropB = 0)
   /\ (e.res = "drop"   => e.dDrop = 1 /\ e.dDropB = Len(s) /\ e.dPass = 0 /\ e.dPassB = 0)
-  \* a well-formed line yields a record with exactly its fields
-  /\ WellFormed(s) =>
+  \* a well-formed line whose header fits yields a record with exactly its fields; an oversized header is refused
+  /\ (WellFormed(s) /\ HeaderLen(s) > MaxRec) => e.res = "drop"
+  /\ (WellFormed(s) /\ HeaderLen(s) <= MaxRec) =>
        /\ e.res = "record"
        /\ LET sp  == Spaces(s, 1, 7)
               pri == Pri(s, sp[1] - 1)
               m   == Message(s)
+              lim == MsgLimit(s)
           IN /\ e.facility = FacilityNames[(pri \div 8) + 1]
              /\ e.level = e.mapping[(pri % 8) + 1]
              /\ \A k \in 1..6 : e.tokens[k] = Token(s, k)
-             /\ (Valid(m) => e.msg = CutMessage(m))
-             /\ (Len(m) > MaxMsg => (e.dOvf = 1 /\ e.dOvfB = Len(s) /\ Len(e.msg) <= MaxMsg))
-             /\ (Len(m) <= MaxMsg => e.dOvf = 0)
+             /\ (Valid(m) => e.msg = CutMessageTo(m, lim))
+             /\ (Len(m) > lim => (e.dOvf = 1 /\ e.dOvfB = Len(s) /\ Len(e.msg) <= lim))
+             /\ (Len(m) <= lim => e.dOvf = 0)
              /\ e.unescaped = HasNewline(e.msg)
 =============================================================================
